@@ -378,6 +378,24 @@ def write_replay(prop, o, extra):
     return path
 
 
+def _touches(unit_path, files, seen=None):
+    """selftest only (RBVERIF_TOUCHING): does the unit's text - with the .vui files it includes - name one of the files?"""
+    seen = seen if seen is not None else set()
+    if unit_path in seen or not os.path.exists(unit_path):
+        return False
+    seen.add(unit_path)
+    text = open(unit_path).read()
+    if any(f in text for f in files):
+        return True
+    d = os.path.dirname(unit_path)
+    for m in re.finditer(r'^//@ include(?:-external)? (\S+)', text, re.M):
+        n = m.group(1)
+        for cand in (n, n + '.vui', n + '.vu'):
+            if _touches(os.path.join(d, cand), files, seen):
+                return True
+    return False
+
+
 def check_property(prop, tier, seed, jobs, keep=False, only_units=None, only_harness=None):
     t0 = time.time()
     spec = PROPS[prop]
@@ -394,6 +412,12 @@ def check_property(prop, tier, seed, jobs, keep=False, only_units=None, only_har
         vsel = [u for u in vunits.values() if prop in u.props and (tier == 'thorough' or u.tier == 'quick')]
         if only_units:
             vsel = [u for u in vsel if u.name in only_units]
+        touching = [f for f in os.environ.get('RBVERIF_TOUCHING', '').split(':') if f]
+        if touching and not os.environ.get('RBVERIF_EVIDENCE_DIR'):
+            raise SystemExit('RBVERIF_TOUCHING is for selftest.sh only (needs RBVERIF_EVIDENCE_DIR): a registered check always runs every unit')
+        if touching:
+            # development-time self-test only: units that do not name any of the patched files are skipped
+            vsel = [u for u in vsel if _touches(u.path, touching)]
         with cf.ThreadPoolExecutor(max_workers=max(1, min(jobs, 8))) as ex:
             for u, (outs, info) in zip(vsel, ex.map(lambda u: run_verus_unit(u, scratch, tier), vsel)):
                 rx = u.meta.get('only', {}).get(prop)
@@ -407,6 +431,8 @@ def check_property(prop, tier, seed, jobs, keep=False, only_units=None, only_har
         ksel = [u for u in kunits.values() if any(prop in h.props for h in u.harnesses)]
         if only_units:
             ksel = [u for u in ksel if u.name in only_units]
+        if touching:
+            ksel = [u for u in ksel if _touches(u.path, touching)]
         kouts, kinfo, preps = run_kani_units(ksel, prop, tier, scratch, jobs, only=only_harness)
         outcomes += kouts
         # counterexamples for failed Kani obligations
